@@ -26,7 +26,8 @@ RULE = ('Hypothesis-generated packets (type 0..6 - binary types reached by '
         'non-default namespace, id), or a bytes leaf below depth 1, or a '
         'top-level scalar payload adjacent to the header. Distinct = distinct '
         'canonical JSON of the case.'
-        ' Two packets decoded from the same frames are also reassembled alternately, behind a third one given up half-way.')
+        ' Two packets decoded from the same frames are also reassembled alternately, behind a third one given up half-way.'
+        ' A binary packet object that was encoded and then given another payload (one more attachment, in front or at the end) encodes to the frames of a fresh packet with that payload.')
 ASSUMPTIONS = [
     'bare top-level numeric payloads that start with a digit (only '
     'possible for CONNECT/DISCONNECT/CONNECT_ERROR) are inherently ambiguous '
@@ -267,6 +268,27 @@ def check_case(case):
                                    choice=case.get('choice', 0),
                                    ws=case.get('ws', ''))
     _roundtrip(P, rtext, ratts, etype, nsp, pid, data, 'reverse', enc)
+
+    # a packet object is what it holds now: after the application has given
+    # an encoded packet another payload (one more attachment), encoding it
+    # yields the frames of a packet made with that payload
+    if etype in (5, 6) and isinstance(data, list):
+        import copy
+        if case.get('choice', 0) % 2:
+            data2 = copy.deepcopy(data) + [b'late']
+        elif etype == 5:
+            data2 = [data[0], b'early'] + copy.deepcopy(data[1:])
+        else:
+            data2 = [b'early'] + copy.deepcopy(data)
+        pkt.data = data2
+        got = pkt.encode()
+        want = P.Packet(etype - 3, data=copy.deepcopy(data2), namespace=nsp,
+                        id=pid).encode()
+        if not strict_eq(got, want):
+            raise Violation('encode-ignores-new-payload', 'after data was '
+                            'replaced: %r, a fresh packet with that payload: '
+                            '%r' % (repr(got)[:200], repr(want)[:200]))
+        labels['reencoded_after_payload_change'] = True
     return labels
 
 
